@@ -585,3 +585,13 @@ Definition job_settings (fsys : str -> option str) (j : job) : option settings :
 
 Definition run_all (body : settings -> str) (fsys : str -> option str) (jobs : list job) : list (option str) :=
   map (fun j => option_map (render_file body) (job_settings fsys j)) jobs.
+
+(* ---------- template-data of a file: own keys first, missing keys from the ancestors ---------- *)
+(* config.mergeConfigs / mergeStringMaps: template-data is merged key by key from the top
+   level, the package's `recursive: true` ancestors and the package itself (C08 owns the merge;
+   here only its result for the two header keys is named). *)
+Definition inherit {A} (own parent : option A) : option A :=
+  match own with Some _ => own | None => parent end.
+Definition effective (own parent : settings) : settings :=
+  {| s_fmt := s_fmt own; s_tmpl := s_tmpl own; s_bp := inherit (s_bp own) (s_bp parent);
+     s_tags := inherit (s_tags own) (s_tags parent); s_pkg := s_pkg own |}.
